@@ -7,11 +7,27 @@ META = {
     "level": "model_checking",
     "technique": "TLA+ spec of the legacy pool (LegacyPool.tla: add/validate/enqueue/promote/demote/truncate, two-heap priced list, reset with reinjection) model-checked with TLC; TLC-generated behaviours and seeded random operation sequences executed on the real legacypool.LegacyPool, every step validated against LegacyPoolTrace.tla with all invariants",
     "text": "TLC explores all Add/Reset/SetGasTip sequences over a small transaction universe, block tree and tiny pool limits and checks the C41 invariants (pending gapless from the state nonce, affordable, pending/queue disjoint, lookup = union, price-heap and slot accounting, virtual nonces, limits after each maintenance cycle, replacement needs the price bump) on the model; behaviours sampled by TLC and seeded random sequences (3 accounts, forks up to depth 3, balance/nonce/delegation changes, tip changes, tiny random limits) are executed on a real LegacyPool over a harness chain backed by real StateDBs; after every operation the full white-box projection (Content/Stats/Pending/Nonce + export: priced heaps, stale counter, lookup, slots, list cost totals, nonce indexes, heartbeat order, reservations) is logged and TLC checks that each step is a step of the specification with exactly that successor state and that every invariant holds in the real pool's states.",
-    "note": "Trusts TLC, the projection in harness/cmd/c41 and the read-only export file legacypool/verif_export_pool.go. Heap pop order among equal-priced entries, Go map iteration orders and heartbeat times are nondeterministic in the spec (any order accepted). 'Affordable' is what the pool enforces: every pooled transaction is individually payable (cumulative overdraft is only an admission rule, modelled in Add). Not modelled: SetCode transactions/authority tracking, lifetime eviction, journal/locals, block gas limit changes, concurrent (non-sync) Add. KNOWN FINDING C41-gap-after-reorg (spec/pool/NOTES.md): the real pool leaves nonce gaps in a pending list after a Reset whose reinjection fails for a middle nonce; the strict invariant is checked with exactly those accounts excused (ghost variable gapped, TODO-KNOWN-FINDING in LegacyPool.tla) and the model's witnesses are replayed on the real pool in every run.",
+    "note": "Trusts TLC, the projection in harness/cmd/c41 and the read-only export file legacypool/verif_export_pool.go. Heap pop order among equal-priced entries, Go map iteration orders and heartbeat times are nondeterministic in the spec (any order accepted). 'Affordable' is what the pool enforces: every pooled transaction is individually payable (cumulative overdraft is only an admission rule, modelled in Add). Not modelled: SetCode transactions/authority tracking, lifetime eviction, journal/locals, block gas limit changes, concurrent (non-sync) Add. KNOWN FINDING C41-gap-after-reorg (spec/pool/NOTES.md): the real pool leaves nonce gaps in a pending list after a Reset whose reinjection fails for a middle nonce; the strict invariant is checked with exactly those accounts excused (ghost variable gapped in LegacyPool.tla); every occurrence is counted by the driver and goes through ctx.known_finding (open entry in known_findings.json), and the model's witnesses are replayed on the real pool in every run.",
     "design_ref": "3.6 C41",
 }
 
 T = 3600
+
+
+def pending(ctx, tally, summary):
+    """Collect the occurrences of open known findings a driver run observed (Summary.Extra["pending"])."""
+    for fid, v in (summary.get("extra", {}).get("pending") or {}).items():
+        t = tally.setdefault(fid, {"count": 0, "sample": v.get("sample")})
+        t["count"] += v.get("count", 0)
+
+
+def settle(ctx, tally):
+    """Every observed fingerprint must be an OPEN entry of known_findings.json, else it is a violation."""
+    for fid, t in sorted(tally.items()):
+        if t["count"] > 0 and not ctx.known_finding(fid):
+            ctx.violation("%s observed %d time(s) on the real pool and not listed as an open known finding" % (fid, t["count"]),
+                          {"kind": "finding", "finding": fid, "count": t["count"], "sample": t["sample"], "seed": ctx.seed, "tier": ctx.tier})
+        ctx.notes.append("known finding %s: fingerprint observed %d time(s) in this run" % (fid, t["count"]))
 
 
 def behaviours(res, tag):
@@ -25,8 +41,9 @@ def run(ctx):
                         timeout=T, workers=ctx.pick(4, 8), name="MCLegacyPool", coverage=ctx.thorough)
     if ctx.thorough and r.zero_cov:
         ctx.notes.append("actions with zero coverage in MC: %s" % sorted(set(r.zero_cov)))
-    # TODO-KNOWN-FINDING C41-gap-after-reorg: the model's witnesses of the strict gapless property failing are
-    # replayed on the real pool; the evidence records on how many of them the real pool shows the gap.
+    tally = {}
+    # KNOWN-FINDING C41-gap-after-reorg (open in known_findings.json): the model's witnesses of the strict gapless
+    # property failing are replayed on the real pool; the drivers count every Reset that leaves a gapped pending list.
     g = ctx.model_check("pool/MCLegacyPool", "pool/MCLegacyPoolGap", tags=("GAP",), timeout=T, workers=4, name="MCLegacyPoolGap")
     wit = behaviours(g, "GAP")[:8]
     traces = []
@@ -34,8 +51,9 @@ def run(ctx):
         wp, wt = os.path.join(ctx.scratch, "gap.json"), os.path.join(ctx.scratch, "gap.ndjson")
         write_json(wp, wit)
         s, _ = ctx.drive(drv, ["-mode", "witness", "-in", wp, "-trace", wt], name="c41-witness", timeout=T)
-        ctx.notes.append("known finding C41-gap-after-reorg: %d/%d model witnesses reproduce a gapped pending list on the real pool"
+        ctx.notes.append("C41-gap-after-reorg: %d/%d model witnesses reproduce a gapped pending list on the real pool"
                          % (s.get("extra", {}).get("reproduced_on_real_pool", 0), len(wit)))
+        pending(ctx, tally, s)
         traces.append((wt, s["traces"]))
     # R: behaviours sampled by TLC from the model, executed on the real pool
     sim = ctx.tlc("pool/MCLegacyPool", "pool/MCLegacyPoolSim", simulate="num=%d" % ctx.pick(15, 120), depth=16,
@@ -51,11 +69,14 @@ def run(ctx):
     bp, bt = os.path.join(ctx.scratch, "beh.json"), os.path.join(ctx.scratch, "beh.ndjson")
     write_json(bp, bs)
     s, _ = ctx.drive(drv, ["-mode", "replay", "-in", bp, "-trace", bt], name="c41-replay", timeout=T)
+    pending(ctx, tally, s)
     traces.append((bt, s["traces"]))
     # V: seeded random operation sequences on the real pool
     rt = os.path.join(ctx.scratch, "rec.ndjson")
     s, _ = ctx.drive(drv, ["-mode", "record", "-trace", rt, "-n", ctx.pick(25, 400), "-steps", 60], name="c41-record", timeout=T)
+    pending(ctx, tally, s)
     traces.append((rt, s["traces"]))
+    settle(ctx, tally)
     for tp, n in traces:
         ok, consumed, total, res = ctx.validate("pool/LegacyPoolTrace", tp, ntraces=n, timeout=T)
         if not ok:
